@@ -289,7 +289,19 @@ func oracleC03(p *sim.Plan, out *sim.Outcome) []sim.Violation {
 					vs = append(vs, viol("C03", "until_acked", "resent-after-ack", "message %q (pid %d) was delivered again although the client had completed its acknowledgement on a connection that stayed up", pl, pk.PID))
 				}
 				m := find(pk.PID)
-				if inPrefix {
+				if inPrefix && relaxed(r.Conn) {
+					// order is not decidable here (see relaxed); retransmissions are ticked off in any order and what
+					// is left when the system becomes quiescent was not retransmitted
+					for i, e := range expect {
+						if e.pid == pk.PID && e.payload == pl {
+							expect = append(expect[:i:i], expect[i+1:]...)
+							if m != nil && !m.carried {
+								m.ackSent = false
+							}
+							break
+						}
+					}
+				} else if inPrefix {
 					// must be the next expected retransmission (optional ones may be skipped)
 					matched := false
 					for len(expect) > 0 {
@@ -384,6 +396,13 @@ func oracleC03(p *sim.Plan, out *sim.Outcome) []sim.Violation {
 					// while the retransmissions are still being written): not part of the retransmission prefix
 					for i, e := range expect {
 						if e == m {
+							expect = append(expect[:i:i], expect[i+1:]...)
+							break
+						}
+					}
+				} else if inPrefix && relaxed(r.Conn) {
+					for i, e := range expect {
+						if e.pid == pk.PID {
 							expect = append(expect[:i:i], expect[i+1:]...)
 							break
 						}
